@@ -74,6 +74,9 @@ theorem At.map_kids {path ename kn kdt knl kmd vn vdt vnl vmd rest en emd sorted
   cases rest with
   | cons _ _ => simp [newDT, SaModel.fail] at h0
   | nil =>
+    cases en with
+    | true => simp [newDT, ctx_ok, SaModel.fail] at h0
+    | false =>
     simp only [newDT, newB] at h0
     obtain ⟨kb, hkb, h0⟩ := (Build.bind_ok _ _ _).1 h0
     obtain ⟨vb, hvb, h0⟩ := (Build.bind_ok _ _ _).1 h0
